@@ -4,7 +4,7 @@
 open Model
 type string = Stdlib.String.t
 open Conv
-let pool_byte i = n_of_int ((i * 31 + 7) land 0xff)
+let pool_byte i = let b = (i * 31 + 7) land 0xff in n_of_int (if b = 0xEE then 0x11 else b)
 let pool off len = List.init len (fun i -> pool_byte (off + i))
 let nth_opt l i = try Some (List.nth l i) with _ -> None
 let split c s = if s = "-" || s = "" then [] else String.split_on_char c s
